@@ -15,8 +15,8 @@ import (
 func init() {
 	Registry["C05"] = c05
 	Metas["C05"] = Meta{Ref: true, Level: "other", NeedCG: true,
-		Technique: "static analysis: effect-set (append vs reset) check of per-block accumulators, dominance of state rebuild, who-may-call of the execution callbacks, publish-order check around atomic status stores, nondeterminism-source lint with a reviewed table",
-		Explain:   "Determinism of replicated execution is a hyperproperty over two runs and is not decided. Decided are structural necessary conditions: (R1) every EVMApp field that the per-transaction end callback appends to is reset on the commit path, so a block's receipts hash cannot depend on earlier blocks of the same process lifetime; (R2) OnExecute rebuilds currentState from the persisted last app hash, unconditionally, before any transaction runs, and nothing else assigns currentState; (R3) the execution callbacks are invoked only by the in-order executor loop (never from a worker goroutine) with the outer loop index, the serial variant (which does not verify signatures) has no production caller, and the worker count only sizes the verifier pool; (R4) in the parallel verifier no plain field of a transaction slot is written after the atomic store that publishes its terminal status; (R5) in the AnnChain-specific execution/commit/hash code every map iteration and every time/rand/NumCPU use is in the reviewed table (order-insensitive or not feeding replicated state); (R6) the receipts hash is computed from the block's receipts then key-value records, in slice order. (R7) no package-level variable of the application or state packages is written after initialisation (evmConfig is shared by block execution and RPC queries). (R2 also) the gas pool given to ApplyTransaction is created per transaction. NOT decided: equality of hashes between runs, EVM determinism (C10/C11).",
+		Technique: "static analysis: effect-set (append vs reset) check of per-block accumulators, dominance of state rebuild, who-may-call of the execution callbacks, publish-order check around atomic status stores, nondeterminism-source lint with a reviewed table, reviewed-table lint of package-level stores and struct-held map updates",
+		Explain:   "Determinism of replicated execution is a hyperproperty over two runs and is not decided. Decided are structural necessary conditions: (R1) every EVMApp field that the per-transaction end callback appends to is reset on the commit path, so a block's receipts hash cannot depend on earlier blocks of the same process lifetime; (R2) OnExecute rebuilds currentState from the persisted last app hash, unconditionally, before any transaction runs, and nothing else assigns currentState; (R3) the execution callbacks are invoked only by the in-order executor loop (never from a worker goroutine) with the outer loop index, the serial variant (which does not verify signatures) has no production caller, and the worker count only sizes the verifier pool; (R4) in the parallel verifier no plain field of a transaction slot is written after the atomic store that publishes its terminal status; (R5) in the AnnChain-specific execution/commit/hash code every map iteration and every time/rand/NumCPU use is in the reviewed table (order-insensitive or not feeding replicated state); (R6) the receipts hash is computed from the block's receipts then key-value records, in slice order. (R7) no package-level variable of the application or state packages is written after initialisation (evmConfig is shared by block execution and RPC queries). (R2 also) the gas pool given to ApplyTransaction is created per transaction. (R9) every map held in a field of a struct of chain/app/evm and updated at run time is in the reviewed table (per-commit batch memo; transaction-pool bookkeeping, which is not an input of execution), so no unreviewed in-memory memo can make a restarted replica differ from a continuous one. NOT decided: equality of hashes between runs, EVM determinism (C10/C11).",
 		Assume:    []string{"the in-tree EVM and trie are deterministic (C10/C11)", "rlp encoding is canonical (C18)"},
 	}
 }
@@ -32,6 +32,7 @@ func c05(c *Ctx) {
 	c05R6(c)
 	c05R7(c)
 	c05R8(c)
+	c05R9(c)
 	shared(c, "C06", c06R1)
 	shared(c, "C10", vmEquivShared)
 }
@@ -577,4 +578,75 @@ func c05R8(c *Ctx) {
 	if n == 0 {
 		c.R.Undecided(rule, "queryContract:NewEVM", c.P.Pos(f.F.Pos()), fname(f), "no EVM constructed")
 	}
+}
+
+// c05R9: no process-lifetime memo behind execution.  R7 covers package-level variables; the same
+// dependence on process history arises from a map kept in a field of one of the application's
+// objects and filled while blocks are executed or committed: a replica that was restarted starts
+// with it empty, a replica that ran continuously does not, so whatever is derived from it (history
+// indices, cached headers, memoised sizes) can differ between the two.  Every map-typed field of a
+// struct of chain/app/evm that is updated outside a constructor is therefore in the reviewed table,
+// with the reason why its content does not outlive one block (or one call).
+func c05R9(c *Ctx) {
+	rule := c.R.Rule("R9", "no process-lifetime memo behind execution: every map held in a field of a struct of chain/app/evm and updated (m[k]=v, delete) by a function of the package is in the reviewed table with the reason why its content does not outlive one block or one call, or is not an input of execution (a map that survives blocks in memory is empty on a restarted replica and filled on a continuous one)", 1)
+	reviewed := map[string]string{
+		"kvBatch.keys": "the batch is created by NewBatch for one commit (SaveReceipts) and dropped after commit(); keys only memoises the sizes read from the database within that batch",
+	}
+	const pool = "transaction-pool bookkeeping: the pool is local by design and is not an input of block execution or of queries (a block carries its own transactions; OnCommit only tells the pool what was included); the pool itself is decided under C19"
+	for _, k := range []string{"ethTxPool.all", "ethTxPool.pending", "ethTxPool.waiting", "ethTxPool.waitingBeats", "txSortedMap.items"} {
+		reviewed[k] = pool
+	}
+	nupd := 0
+	seen := map[string]bool{}
+	for _, fn := range c.P.FuncsOfPkg("chain/app/evm") {
+		if fn.Blocks == nil {
+			continue
+		}
+		f := c.Fn(fn)
+		for _, b := range fn.Blocks {
+			for _, ins := range b.Instrs {
+				var mv ssa.Value
+				switch x := ins.(type) {
+				case *ssa.MapUpdate:
+					mv = x.Map
+				case *ssa.Call:
+					if bi, ok := x.Call.Value.(*ssa.Builtin); ok && bi.Name() == "delete" && len(x.Call.Args) > 0 {
+						mv = x.Call.Args[0]
+					}
+				}
+				if mv == nil || !f.Live(ins) {
+					continue
+				}
+				ld, ok := mv.(*ssa.UnOp)
+				if !ok {
+					continue
+				}
+				fa, ok := ld.X.(*ssa.FieldAddr)
+				if !ok {
+					continue
+				}
+				pt, ok := fa.X.Type().Underlying().(*types.Pointer)
+				if !ok {
+					continue
+				}
+				named, ok := pt.Elem().(*types.Named)
+				if !ok || named.Obj().Pkg() == nil || core.Short(named.Obj().Pkg().Path()) != "chain/app/evm" {
+					continue
+				}
+				st, ok := named.Underlying().(*types.Struct)
+				if !ok {
+					continue
+				}
+				nupd++
+				key := named.Obj().Name() + "." + st.Field(fa.Field).Name()
+				why, rev := reviewed[key]
+				if seen[key+"@"+fname(f)] {
+					continue
+				}
+				seen[key+"@"+fname(f)] = true
+				c.R.Ob(rule, "map-field-update:"+key+"@"+core.Short(fname(f)), rev, c.Pos(ins), fname(f), "a map in a field of an application object is updated here; unless its owner lives for one block or one call, a restarted replica sees it empty while a continuous one sees it filled; "+why)
+			}
+		}
+	}
+	c.R.Ob(rule, "map-field-updates-examined", nupd >= 1, "-", "", fmt.Sprintf("%d updates of struct-held maps in chain/app/evm", nupd))
 }
